@@ -253,6 +253,7 @@ inductive CloseP
 deriving Repr, DecidableEq, Inhabited
 
 structure State where
+  errCloses : Bool              -- configuration: the reader loop returns when handleGoAway reports a connection error
   hdrSize : Nat                 -- Σ hf.Size() of the request header list (configuration)
   now : Nat
   tstate : TState
@@ -289,10 +290,19 @@ deriving Repr, DecidableEq, Inhabited
 
 def limit : Nat := defaultWindowSize
 
-def init (hdrSize : Nat) (maxConc : Option Nat) (maxSendHdr : Option Nat) : State :=
+/-- Does `http2Client.reader` return (and hence `Close` the transport) when `handleGoAway` reports a
+connection error?  Read off the CURRENT source of `reader` (T4): is there a `return` after the call.
+In the tree this model was written against there is none: `errClose = t.handleGoAway(frame)` is
+followed by the next loop iteration, so the error is dropped. -/
+def readerReturnsOnGoAwayErr : Bool :=
+  match readerSrc.splitOn "t.handleGoAway(frame)" with
+  | [_, after] => (after.splitOn "return").length > 1
+  | _ => false
+
+def init (errCloses : Bool) (hdrSize : Nat) (maxConc : Option Nat) (maxSendHdr : Option Nat) : State :=
   -- NewHTTP2Client + readServerPreface (handleSettings(sf, isFirst = true)); loopy has written the ack
   let mc := maxConc.getD maxU32
-  { hdrSize := hdrSize, now := 0, tstate := .reachable, nextID := 1, streams := [], rpcs := [],
+  { errCloses := errCloses, hdrSize := hdrSize, now := 0, tstate := .reachable, nextID := 1, streams := [], rpcs := [],
     goAwayClosed := false, prevGoAwayID := 0, reason := 0,
     quota := (defaultMaxStreamsClient : Int) + ((mc : Int) - (defaultMaxStreamsClient : Int)), maxConc := mc, waiting := 0,
     maxSendHdr := maxSendHdr, chanGen := 0, token := false, unacked := 0,
@@ -520,23 +530,24 @@ def State.goAwayFirst (s : State) (code : Nat) (debug : Bytes) : State :=
   let s := { s with reason := reason, goAwayClosed := true }
   if s.tstate ≠ .draining then ({ s with tstate := TState.draining }).notify reason code false else s
 
-/-- record the id, then kill the streams above it (or return the "no active streams" error) -/
-def State.goAwayKill (s : State) (id upper : Nat) : State :=
+/-- record the id, then kill the streams above it; `true` = the "no active streams" connection error -/
+def State.goAwayKill (s : State) (id upper : Nat) : State × Bool :=
   let s := { s with prevGoAwayID := id }
-  if s.activeCount == 0 then { s with goAwayErrs := s.goAwayErrs + 1 }
+  if s.activeCount == 0 then ({ s with goAwayErrs := s.goAwayErrs + 1 }, true)
   else
     -- stream.unprocessed.Store(true) for every victim (done or not), then closeStream outside t.mu
-    (s.markVictims id upper).closeVictims id upper s.streams.length
+    ((s.markVictims id upper).closeVictims id upper s.streams.length, false)
 
-/-- `handleGoAway`; the returned error is assigned to the reader's `errClose`, and the reader loop
-goes on to the next frame (it is only counted here). -/
-def State.handleGoAway (s : State) (id code : Nat) (debug : Bytes) : State :=
-  if s.tstate = .closing then s else
-  if id > 0 && id % 2 = 0 then { s with goAwayErrs := s.goAwayErrs + 1 } else
-  if s.goAwayClosed && id > s.prevGoAwayID then { s with goAwayErrs := s.goAwayErrs + 1 } else
+/-- `handleGoAway`; the Bool is "returned a connection error" (assigned to the reader's `errClose`). -/
+def State.handleGoAway (s : State) (id code : Nat) (debug : Bytes) : State × Bool :=
+  if s.tstate = .closing then (s, false) else
+  if id > 0 && id % 2 = 0 then ({ s with goAwayErrs := s.goAwayErrs + 1 }, true) else
+  if s.goAwayClosed && id > s.prevGoAwayID then ({ s with goAwayErrs := s.goAwayErrs + 1 }, true) else
   let upper := if s.prevGoAwayID = 0 then maxU32 else s.prevGoAwayID
   if s.goAwayClosed then s.goAwayKill id upper
-  else ((s.goAwayFirst code debug).goAwayKill id upper).put .inGoAway      -- deferred put(incomingGoAway)
+  else
+    let r := (s.goAwayFirst code debug).goAwayKill id upper
+    (r.1.put .inGoAway, r.2)      -- deferred put(incomingGoAway)
 
 /-- `streams := t.activeStreams; t.activeStreams = nil` -/
 def snapF (x : Strm) : Strm := { x with inSnapshot := x.inActive, inActive := false }
@@ -564,7 +575,10 @@ def State.onFrame (s : State) (f : Frame) : State :=
   | .rst sid code => s.handleRST sid code
   | .settings ack ss => s.handleSettings ack ss
   | .ping ack d => if ack then s else s.put (.pingAck d)
-  | .goAway id code dbg => s.handleGoAway id code dbg
+  | .goAway id code dbg =>
+    -- `errClose = t.handleGoAway(frame)`; whether the loop then returns is configuration (`errCloses`)
+    let r := s.handleGoAway id code dbg
+    if s.errCloses && r.2 then r.1.readerExit else r.1
   | .windowUpdate _ _ => s.put .inWU
   | .other => s
   | .streamErr sid code =>
